@@ -61,7 +61,7 @@ def do_import(wt, sid):
             else:
                 rc, out = cargo_test(d, target, ['--lib'])
                 m = re.search(r'test result: (\w+)\. (\d+) passed; (\d+) failed', out or '')
-                suite_ok = bool(m and m.group(1) == 'ok' and m.group(2) == '136')
+                suite_ok = bool(m and m.group(1) == 'ok' and int(m.group(2)) >= 136 and m.group(3) == '0')   # a patch may add unit tests of its own
                 ran.append('cargo test --offline --lib with the patch: %s' % (m.group(0) if m else 'no result (rc=%s)' % rc))
                 ok = ok and suite_ok
                 os.makedirs(os.path.join(d, 'tests'), exist_ok=True)
